@@ -102,6 +102,9 @@ type dsServer struct {
 	// GETs only counter, for read-fault addressing
 	nGet      int
 	GetFaults map[int]string
+	// DelayGet: the j-th GET is held for this long (simulated time) before the server sees it, or until
+	// the request's context is done - whichever comes first
+	DelayGet map[int]time.Duration
 }
 
 func newDSServer(chunk int) *dsServer {
@@ -112,7 +115,7 @@ func newDSServer(chunk int) *dsServer {
 	h := dsproto.NewHandler(memorystorage.New(), cfg)
 	mux := http.NewServeMux()
 	mux.Handle("/v1/stream/", http.StripPrefix("/v1/stream/", h))
-	return &dsServer{handler: mux, Faults: map[int]string{}, GetFaults: map[int]string{}, Fired: map[string]int{}}
+	return &dsServer{handler: mux, Faults: map[int]string{}, GetFaults: map[int]string{}, Fired: map[string]int{}, DelayGet: map[int]time.Duration{}}
 }
 
 var errNet = errors.New("simulated network failure")
@@ -129,7 +132,24 @@ func (s *dsServer) RoundTrip(req *http.Request) (*http.Response, error) {
 		if g, ok := s.GetFaults[s.nGet]; ok {
 			f = g
 		}
+		d, delayed := s.DelayGet[s.nGet]
 		s.nGet++
+		if delayed {
+			s.Fired["request-delayed"]++
+			tok := simrt.BeforeBlock()
+			tm := time.NewTimer(d)
+			var cerr error
+			select {
+			case <-tm.C:
+			case <-req.Context().Done():
+				cerr = req.Context().Err()
+			}
+			tm.Stop()
+			simrt.AfterBlock(tok)
+			if cerr != nil {
+				return nil, cerr
+			}
+		}
 	}
 	if f == "lost-request" {
 		s.Fired["lost-request"]++
